@@ -74,6 +74,7 @@ def dispatch (spec : Bool) (line : String) : String :=
   | "RUN" :: a => cmdRun spec false a
   | "RUNV" :: a => cmdRun spec true a
   | "EXEC" :: a => cmdExec spec a
+  | "EXECF" :: a => cmdExecG true spec a
   | ["TXPARSE", h] =>
     match ofHex h with
     | none => "bad-op"
